@@ -19,6 +19,27 @@ let int_of_n = function N0 -> 0 | Npos p -> int_of_pos p
 let z_of_int i = if i = 0 then Z0 else if i > 0 then Zpos (pos_of_int i) else Zneg (pos_of_int (- i))
 let int_of_z = function Z0 -> 0 | Zpos p -> int_of_pos p | Zneg p -> - (int_of_pos p)
 
+(* arbitrary-size decimal <-> Z (tokens reach 2^64-1: beyond OCaml's native int) *)
+let z_of_string (s : string) : z =
+  let neg = String.length s > 0 && s.[0] = '-' in
+  let ds = ref (List.init (String.length s - (if neg then 1 else 0)) (fun i -> Char.code s.[i + (if neg then 1 else 0)] - 48)) in
+  let bits = ref [] in                                   (* least significant first *)
+  while List.exists (fun d -> d <> 0) !ds do
+    let carry = ref 0 in
+    ds := List.map (fun d -> let v = !carry * 10 + d in carry := v land 1; v / 2) !ds;
+    bits := !carry :: !bits
+  done;
+  let lsb = List.rev !bits in
+  let rec build = function [] -> failwith "z_of_string" | [_] -> XH | b :: r -> if b = 1 then XI (build r) else XO (build r) in
+  if lsb = [] then Z0 else if neg then Zneg (build lsb) else Zpos (build lsb)
+let string_of_z (v : z) : string =
+  let dbl ds add = let carry = ref add in
+    let r = List.rev_map (fun d -> let v = 2 * d + !carry in carry := v / 10; v mod 10) (List.rev ds) in
+    if !carry > 0 then !carry :: r else r in
+  let rec go = function XH -> [1] | XO p -> dbl (go p) 0 | XI p -> dbl (go p) 1 in
+  let str p = String.concat "" (List.map string_of_int (go p)) in
+  match v with Z0 -> "0" | Zpos p -> str p | Zneg p -> "-" ^ str p
+
 let split c s = String.split_on_char c s
 let ints s = if s = "-" || s = "_" then [] else List.map int_of_string (split ',' s)
 type elem = string list
@@ -34,8 +55,7 @@ let op_of = function "plus" | "uplus" -> C07_Plus | "mult" -> C07_Mult | "min" -
   | "maxsum" -> C07_MaxSum | "cmult" -> C07_CMult | s -> failwith ("fn " ^ s)
 let fun_of fn ty : elem -> elem -> elem =
   let op = if fn = "mult" && List.mem ty ["cdouble"; "cfloat"; "cldouble"] then C07_CMult else op_of fn in
-  fun a b -> List.map (fun z -> string_of_int (int_of_z z))
-      (c07_apply_op op (List.map (fun s -> z_of_int (int_of_string s)) a) (List.map (fun s -> z_of_int (int_of_string s)) b))
+  fun a b -> List.map string_of_z (c07_apply_op op (List.map z_of_string a) (List.map z_of_string b))
 
 (* ---- layout table ---- *)
 type lay = { sz : int; desc : string; comm : (int * int) list; all : (int * int) list; packsize : int; extent : int }
@@ -96,13 +116,16 @@ let coll t =
   let nroot = nat_of_int root and nlen = nat_of_int len in
   let f () = fun_of fn ty in
   (* sum/prod/min/max on an intrinsic element type: the MPI op the SOURCE's ComposeMPIOp table selects (c07_intrinsic_reduce) *)
-  let intrinsic = List.mem ty ["int"; "long"; "uchar"; "char"; "short"; "ulong"; "float"; "double"; "ldouble"; "uint"; "ushort"] in
+  let intrinsic = List.mem ty ["int"; "long"; "uchar"; "char"; "short"; "ulong"; "float"; "double"; "ldouble"; "uint"; "ushort"; "d_hi"; "d_lo"; "d_den"; "f_hi"; "f_den"] in
   let builtin i : elem -> elem -> elem = fun a b ->
-    List.map2 (fun x y -> string_of_int (int_of_z (c07_intrinsic_reduce (nat_of_int i) (z_of_int (int_of_string x)) (z_of_int (int_of_string y))))) a b in
+    List.map2 (fun x y -> string_of_z (c07_intrinsic_reduce (nat_of_int i) (z_of_string x) (z_of_string y))) a b in
   let named fn i = if intrinsic then builtin i else fun_of fn ty in
   let redfn o = match o with "sum1" | "sumN" -> named "plus" 0 | "prod1" | "prodN" -> named "mult" 1
                            | "min1" | "minN" -> named "min" 2 | "max1" | "maxN" -> named "max" 3 | _ -> f () in
   let route rt = Some (c07_spec_apply merge rt ins outs) in
+  (* fn = asym: every rank passes its own arrays; the non-root ranks pass garbage (as the harness does) *)
+  let asym_args () = List.init p (fun r -> if r = root then (nl lens, nl displs)
+                                   else (nl (List.mapi (fun i l -> if r land 1 = 1 then 0 else l + 3 + i + r) lens), nl (List.mapi (fun i _ -> 1000 + 7 * i) displs))) in
   let spec_red fn' l inouts_in = Some (c07_spec_allreduce merge fn' (nat_of_int l) inouts_in outs) in
   let model, spec =
     if comm = "mpi" then
@@ -122,6 +145,8 @@ let coll t =
       | "gather" -> c07_mpi_gather merge nroot nlen ins outs, route (c07_rt_gather (nat_of_int p) nroot nlen)
       | "igather1" | "igatherV" -> let l = List.length (List.nth ins root) in
           c07_mpi_igather merge nroot ins outs, route (c07_rt_gather (nat_of_int p) nroot (nat_of_int l))
+      | "gatherv" when fn = "asym" -> c07_mpi_gatherv_ranks merge nroot ins (asym_args ()) outs, route (c07_rt_gatherv nroot (nl lens) (nl displs))
+      | "scatterv" when fn = "asym" -> c07_mpi_scatterv_ranks merge nroot ins (asym_args ()) outs, route (c07_rt_scatterv nroot (nl lens) (nl displs))
       | "gatherv" -> c07_mpi_gatherv merge nroot ins (nl lens) (nl displs) outs, route (c07_rt_gatherv nroot (nl lens) (nl displs))
       | "scatter" -> c07_mpi_scatter merge nroot nlen ins outs, route (c07_rt_scatter nroot nlen)
       | "iscatter1" | "iscatterV" -> let l = List.length (List.nth ins root) / p in
@@ -197,7 +222,7 @@ let p2p t =
       let tail = Printf.sprintf "/src=0,tag=1,count=%d" (List.length sent) in
       (match m with Some b -> "-;" ^ show_buf b ^ tail | None -> "-;ERR"), "-;" ^ show_buf (ov sent pre) ^ tail
   | "irecv0" -> "-;ParallelError", "-;ParallelError"
-  | "recv" | "isend_irecv" ->
+  | "recv" | "isend_irecv" | "isend_irecv_lv" ->
       let m = c07_recv merge sent pre in
       let rec ov s d = match s, d with [], d -> d | x :: s', y :: d' -> merge x y :: ov s' d' | _, [] -> [] in
       sh m, "-;" ^ show_buf (ov sent pre)
@@ -305,14 +330,22 @@ let pks t =
           Buffer.add_string !cur ("/X" ^ hexof !pk.c07_pk_buf ^ "," ^ st !pk); Buffer.add_string sp "/-"
       | ["n"; n] -> pk := c07_pkn_resize c07_pk_empty (nat_of_int (int_of_string n));      (* MPIPack(comm, size) *)
           Buffer.add_string !cur ("/Z" ^ hexof !pk.c07_pk_buf ^ "," ^ st !pk); Buffer.add_string sp "/-"
-      | ["m"] -> Buffer.add_string !cur ("/Z" ^ hexof !pk.c07_pk_buf ^ "," ^ st !pk); Buffer.add_string sp "/-"   (* moves keep everything *)
+      | ["x"; junk; pos] ->
+          (* rrecv into a pack that already holds other bytes and a cursor *)
+          hop := true; cur := r1;
+          (match c07_pack_rrecv N0 !pk.c07_pk_buf { c07_pk_buf = unhex junk; c07_pk_pos = nat_of_int (int_of_string pos) } with
+           | Some q -> pk := q | None -> failwith "pack_rrecv");
+          Buffer.add_string !cur ("/X" ^ hexof !pk.c07_pk_buf ^ "," ^ st !pk); Buffer.add_string sp "/-"
+      | ["m"] -> pk := c07_pk_move_assign { c07_pk_buf = [n_of_int 106; n_of_int 107; N0; N0; N0]; c07_pk_pos = S O }
+                         (c07_pk_move_assign { c07_pk_buf = []; c07_pk_pos = O } !pk);
+          Buffer.add_string !cur ("/Z" ^ hexof !pk.c07_pk_buf ^ "," ^ st !pk); Buffer.add_string sp "/-"   (* moves keep everything *)
       | ["q"; h] ->      (* a pack as payload: dynamic item of the inner buffer's bytes *)
           let els = List.map (fun b -> [b]) (unhex h) in
           let pt = { c07_pt_dynamic = true; c07_pt_elem = [S O]; c07_pt_count = S O } in
           Buffer.add_string sp ("/B" ^ hexof (c07_pkn_item_bytes pt els));
           pk := c07_pkn_write !pk pt els;
           Buffer.add_string !cur ("/B" ^ hexof !pk.c07_pk_buf ^ "," ^ st !pk)
-      | ["u"; _] ->
+      | "u" :: _ ->
           Buffer.add_string sp "/-";
           (match c07_pkn_read !pk { c07_pt_dynamic = true; c07_pt_elem = [S O]; c07_pt_count = S O } with
            | None -> Buffer.add_string !cur "/RERR"
